@@ -5,7 +5,8 @@ import Cgm.Trace.C01Auto
 `+`, `-`, unary `-`, `* s`, `/ s`, sums and products of lists, as the code computes them, for `Matrix2`, `Matrix3`, `Matrix4`:
 each kernel reads and writes exactly the documented elements (`toMatrix m i j` is row `i`, column `j`)
 
-There is no traced kernel for `row()` and none for `Matrix2::transpose` (`Cgm/Gen/C01.lean`): nothing to state about them here.
+`row()` and `Index<usize>` (columns) are traced at every index in `Cgm/Trace/C01Idx.lean` (end to end: `Cgm/E2E/C01i.lean`);
+`Matrix2::transpose` is traced under C02 (`t_m2_transpose`, `Cgm/Trace/C02.lean`; `Cgm/E2E/C02i.lean`).  Neither is restated here.
 -/
 set_option linter.unusedSectionVars false
 namespace Cg.E2E.C01
@@ -276,8 +277,8 @@ theorem code_m2_elementwise (a b : M2 K) (s : K) :
   rw [C01.M2.div_eq]; exact (C01.M2.elementwise a b s⁻¹).2.2.2.1
 
 /-! ## ring laws on the kernels: associativity, distributivity, `Sum` / `Product` of a list -/
-/-- the traced product and sum satisfy the ring laws: `(a b) c = a (b c)` and `a (b + c) = a b + a c` with every operation the
-traced one; `Sum` / `Product` over a three-element list are `l1 + l2 + l3` and `l1 l2 l3` -/
+/-- two ring laws on the traced product and sum (associativity and left distributivity; only these two laws are stated in this theorem): `(a b) c = a (b c)`
+and `a (b + c) = a b + a c` with every operation the traced one; `Sum` / `Product` over a three-element list are `l1 + l2 + l3` and `l1 l2 l3` -/
 theorem code_m4_ring (a b c : M4 K) :
     t_m4_mul (envL ((t_m4_mul (envL (a.toList ++ b.toList))).out ++ c.toList)) =
       t_m4_mul (envL (a.toList ++ (t_m4_mul (envL (b.toList ++ c.toList))).out)) ∧
